@@ -274,3 +274,23 @@ def arg_obj(st, name, value):
 
 def fmt_val(v):
     return repr(v)
+
+
+def declare(st, value, ranges=None):
+    """register the constant bits of symbolic input values as facts about their symbols (so that the value *is* the
+    symbol for the interval component), and optional ranges {sym: [(lo, hi)]}"""
+    def walk(v):
+        if isinstance(v, BV):
+            names = {b[1] for b in v.bits if isinstance(b, tuple) and b[0] == 'v'}
+            if len(names) == 1:
+                n = next(iter(names))
+                if all((not isinstance(b, tuple)) or (b[0] == 'v' and b[2] == i and not b[3]) for i, b in enumerate(v.bits)):
+                    for i, b in enumerate(v.bits):
+                        if b in (0, 1):
+                            st.env[(n, i)] = b
+        elif isinstance(v, (Struct, Enum)):
+            for x in v.fields:
+                walk(x)
+    walk(value)
+    for k, r in (ranges or {}).items():
+        st.rng[k] = list(r)
